@@ -14,10 +14,12 @@ amplitude type and every meaning of the gates in which X/CX/CCX/MCX/MCtrl(X) per
 states as `applyClassical` says and `I`/barriers do nothing (all other gates arbitrary), the two
 gate lists send every state to the same state.
 
-`C12_statement` below is the full property of the repaired model.  It is **not proved in full**:
-what is missing is the correctness of the internal compiler on the sections it is given (C02,
-known to be false in general for the compiler as it is).  Proved here, for every circuit, every
-simplifier, every sequence of ancilla choices, every quirk setting:
+`C12_statement` below is the full property of the repaired model.  It is **proved** at the end of
+this file (`C12_full`, `C12_statement_holds`): the missing theorem about the internal compiler is
+`accepted_xonly` (`QV/Proofs/Decopt2.lean`) – a re-synthesis the repaired splice test accepts consists
+of the X gates of the section's self-negations `q = ~q` – and such a splice keeps the action
+(`xonly_splice_ok`).  Proved on the way, for every circuit, every simplifier, every sequence of
+ancilla choices, every quirk setting:
 
 * `splice_equiv` – if every section that is spliced in has the same classical action as the
   gates it replaces (`SectionOK`; decidable per instance: `sectionOKb`, run by the check on
@@ -113,8 +115,8 @@ theorem sectionOK_decidable (n : Nat) (old new : List AGate) :
 
 /-- **C12_partial** (the property per validated instance): for every circuit, every
 re-synthesis function (so every simplifier and every sequence of ancilla choices) and every quirk
-setting, a run all of whose splices pass the validator satisfies the property.  Missing for
-`C12_statement`: that the repaired model's splices always pass (compiler correctness). -/
+setting, a run all of whose splices pass the validator satisfies the property.  That the
+repaired model's splices always pass is `accepted_section_ok` below. -/
 theorem C12_partial (q : Quirks) (K : Kernel) (n : Nat) (resyn : Section → Except String SecResult)
     (gs out : List AGate) (secs : List Section) (hwf : ∀ g ∈ gs, g.wires.Nodup)
     (hdec : decompile q K n gs = .ok secs) (hv : validated q n resyn secs = true)
@@ -369,5 +371,26 @@ theorem C12_full (simp : BExp → BExp) (hs : SimpSound simp) (K : Kernel) (hK :
 /-- `C12_statement` holds -/
 theorem C12_statement_holds : C12_statement := fun simp hs choices n gs out hwf h =>
   C12_full simp hs rawKernel rawKernel_sound rawKernel4 rawKernel4_sound choices n gs out hwf h
+
+/-- a simplifier that knows `q0 ^ (q0 ^ q1) = q1` and leaves everything else alone -/
+def cxcxSimp : BExp → BExp := fun e =>
+  if e == .xor [.sym "q0", .xor [.sym "q0", .sym "q1"]] then .sym "q1" else e
+
+/-- the hypotheses of `C12_full` are satisfiable with splices that are accepted and change the circuit:
+`cxcxSimp` preserves meaning; in `cx(0,1) cx(0,1) h(0) x(1)` the first section simplifies to `q1 = q1` and is
+replaced by no gate, the second (`q1 = ~q1`) by its X gate -/
+example : SimpSound cxcxSimp ∧
+    (optimize Quirks.none rawKernel rawKernel4 cxcxSimp (fun _ => []) 2
+      [⟨.CX, [0, 1], .none, 0⟩, ⟨.CX, [0, 1], .none, 0⟩, ⟨.H, [0], .none, 0⟩, ⟨.X, [1], .none, 0⟩]).toOption.map
+      (fun l => l.map (fun g => (g.cls, g.wires))) = some [(.H, [0]), (.X, [1])] := by
+  refine ⟨?_, by decide +kernel⟩
+  intro ρ e
+  unfold cxcxSimp
+  split
+  · next h =>
+    rw [bexp_eq_of_beq h]
+    simp only [BExp.eval, evalXor]
+    cases ρ "q0" <;> cases ρ "q1" <;> rfl
+  · rfl
 
 end QV.C12
